@@ -375,6 +375,48 @@ def scope_cases(seed, n):
     return cases
 
 
+def bare_scope_cases(seed, n):
+    """host mappings that hold DATA only (no host functions) and are equal, as dicts, to the parameter bindings of a lambda
+    call made by the program (or empty, like the scope of a parameterless ast-supplied lambda): the call's scope is a
+    different object however equal it looks, and top-level assignments made around the call still land in the host mapping.
+    returns (line, description, names that a successful run must leave bound)"""
+    cases = []
+    for i in range(n):
+        r = random.Random(f'{seed}/barescope/{i}')
+        k = r.randrange(8)
+        astfns = None
+        if k == 0:
+            v = r.choice([1, 2, 3])
+            ent, must = f'(S:{hx("v")} D:0:{v}:0:c)', ['r', 'total']
+            src = f'r = {r.choice(["map([1, 2, 3], v => v * 10)", "filter([1, 2, 3], v => v > 0)", "sorted([3, 1, 2], v => 0 - v)"])}\ntotal = sum(r)\ntotal'
+        elif k == 1:
+            ent, must = f'(S:{hx("acc")} D:0:3:0:c) (S:{hx("v")} D:0:3:0:c)', ['s', 'acc']
+            src = 's = reduce([1, 2, 3], (acc, v) => acc + v)\nacc = s\n[s, acc, v]'
+        elif k == 2:
+            ent, must = f'(S:{hx("x")} D:0:7:0:c)', ['y', 'z']
+            src = 'y = map([7], x => x + 1)\nz = [x, y]\nz'
+        elif k == 3:
+            # the host mapping is EMPTY and the program calls a parameterless lambda (its scope is an empty dict too)
+            ent, must = '', ['a', 'b']
+            astfns = [('az', [], r.choice(['1', 'loc = 1\nloc', '[1, 2]']))]
+            src = 'a = az()\nb = [a, az()]\nb'
+        elif k == 4:
+            v = r.choice([1, 2])
+            ent, must = f'(S:{hx("w")} D:0:{v}:0:c)', ['f', 'r', 'q']
+            src = 'f = w => w + 1\nr = [f(1), f(2)]\nq = w\n[r, q]'
+        elif k == 5:
+            ent, must = f'(S:{hx("a")} D:0:1:0:c) (S:{hx("b")} D:0:2:0:c)', ['g', 'r', 'c']
+            src = 'g = (a, b) => [a, b]\nr = g(1, 2)\nc = a + b\n[r, c]'
+        elif k == 6:
+            ent, must = f'(S:{hx("v")} S:{hx("x")})', ['r', 'n']
+            src = 'r = map(["x", "y"], v => upper(v))\nn = len(r)\n[r, n, v]'
+        else:
+            ent, must = f'(S:{hx("k")} D:0:0:0:c)', ['f', 'r', 'after']
+            src = 'f = k => (0 if k < 1 else f(k - 1) + k)\nr = f(3)\nafter = k\n[r, after]'
+        cases.append((eval_line(src, ent, hostfns=False, astfns=astfns), src, must))
+    return cases
+
+
 # ------------------------------------------------------------------ higher-order lambdas (C07, C10)
 def closure_cases(seed, n):
     """lambdas that build, return, store and receive lambdas; parameters and globals sharing names; calls made after the
